@@ -1312,7 +1312,19 @@ def r_backpointers(m, rep, R):
         rv = V(ranges[-1][1]) if ranges else V('?')
         for fld, spec in (('cat', M(rv, 'cat_id')), ('right', LIT(None)), ('start_of_span', M(Lp, 'start_of_span')),
                           ('span_length', M(Lp, 'span_length')), ('head_id', M(Lp, 'head_id')), ('fin', LIT(False))):
-            rep.check(canon(f[fld]) == canon(spec), R, s.where(), 'unary:' + fld, 'unary push %s = %s' % (fld, canon(spec)),
+            okf = canon(f[fld]) == canon(spec)
+            if not okf and fld == 'fin' and canon(f[fld]) == canon(M(Lp, 'fin')):
+                # the flag copied from the child: the child is the chart's copy of the popped item, and popped items that are
+                # finished never get here (`if (top.fin) { ..; continue; }`, judged by search:goal-collect)
+                try:
+                    fi_ = search_shape(m)['fin_if']
+                except AnalysisError:
+                    fi_ = None
+                if fi_ is not None:
+                    then_ = fi_.kids[1]
+                    stmts_ = then_.kids if then_.kind == 'CompoundStmt' else [then_]
+                    okf = bool(stmts_) and stmts_[-1].kind == 'ContinueStmt'
+            rep.check(okf, R, s.where(), 'unary:' + fld, 'unary push %s = %s' % (fld, canon(spec)),
                       'unary push %s is %s, expected %s' % (fld, canon(f[fld]), canon(spec)))
     for s in m.by_kind.get('goal', []):
         f = s.f
